@@ -41,6 +41,8 @@ func implC03(line string) string {
 		return implNoIn(f)
 	case "asire":
 		return implAsiRe(f)
+	case "obj":
+		return implObj(f)
 	case "num":
 		return implNum(f)
 	case "str":
@@ -182,4 +184,5 @@ func genC03(c *h.Ctx) {
 	genAsi(c)
 	genAsiRe(c)
 	genNoIn(c)
+	genObj(c)
 }
